@@ -153,7 +153,7 @@ static void b_call_function(unsigned n)
 		CHECK("C14", g_fn_calls == 1 && g_fn_cfg == &cfg && g_fn_opt == &o && g_fn_argc == (int)n, "the function option's callback is called once with the number of collected arguments");
 		for (unsigned i = 0; i < 3; i++) if (i < n) CHECK("C14", g_fn_argv[i] == texts[i], "the callback receives exactly the decoded arguments, in order");
 		CHECK("C14", rc == g_fn_ret, "the callback's result is the verdict");
-		CHECK("C07,C14", args.nvalues == 0 && args.values == NULL, "the collected arguments are released after the call (nothing is left over for the next call)");
+		CHECK("C07,C14,C01", args.nvalues == 0 && args.values == NULL, "the collected arguments are released after the call (nothing is left over for the next call)");
 	}
 }
 void h_call_function(void)
